@@ -39,7 +39,6 @@ out += ['-' * 99, '', '## 7. Defects found on the pinned tree and their disposit
         '### 7.1 Open findings (recorded, not repaired)', '', '| property | signature | what fails | why not repaired |', '|---|---|---|---|']
 why = {
  'movedir-dst-ancestor-of-src-name-clash': 'base-class move_dir = copy_dir then removetree(src); a correct repair needs a staged move (rename source aside first) on every backend — larger than a minimal patch',
- 'removetree-unvalidated-path': 'one-line patch proposed in findings/C01-removetree-unvalidated-path.patch (same failure set of the pinned suite before and after); not landed by the package that found it',
  'aliased-views-copy-into-itself-runaway': 'the library cannot in general know that two FS objects alias one storage',
  'aliased-views-same-file-truncated': 'needs alias detection across wrapper objects (SubFS chains, twin OSFS); not a small safe patch',
  'archive-close-after-failed-write': 'what a failed finalisation should leave behind (keep content for a retry / mark closed and drop it) is a design decision for the maintainers',
